@@ -77,7 +77,8 @@ class NMEA2000Message:
                     f.value = pascal_to_PSI(f.value)
             if f.physical_quantities == PhysicalQuantities.ANGLE:
                 requested_unit = preferred_units.get(PhysicalQuantities.ANGLE, None)
-                if requested_unit == "deg":
+                # a few angles (sensor offsets) are given in degrees by the database already
+                if requested_unit == "deg" and f.unit_of_measurement == "rad":
                     f.unit_of_measurement = "Deg"
                     f.value = radians_to_degrees(f.value)
             if f.physical_quantities == PhysicalQuantities.SPEED:
